@@ -481,8 +481,13 @@ def t_split(E):
 
     def _eager(name):
         def fn_(E, a, k):
-            E.effect('eager:' + name)
-            raise Unsupported('%s() of an iterator inside split' % name)
+            """list()/tuple()/deque() of an iterator: pulls it dry right here (recorded: laziness is lost); what it
+            yields afterwards is the same stream"""
+            if a and isinstance(a[0], Obj) and a[0].cls == 'Iter':
+                E.effect('eager:' + name)
+                den = consume(E, a[0], name)
+                return mk_iter(den)
+            raise Unsupported('%s() inside split' % name)
         return VStub(name, fn_)
 
     def body():
